@@ -32,7 +32,9 @@ class World06(World):
             self.count("api_raise_" + name)
             if name in ("from_code", "from_json_data", "to_code", "normalize", "to_json_data") and op.get("expect_ok", True):
                 # the same pipeline succeeded on the unperturbed lineage: a raise is a divergence
-                if "perturb" in route_sig(arg.route + [name]).split(">"):
+                if outcome[1] == "CallDidNotReturn":
+                    self.violate("N2-trip-does-not-return", name, "route=" + route_sig(arg.route + [name]), {"route": arg.route})
+                elif "perturb" in route_sig(arg.route + [name]).split(">"):
                     # a hand-perturbed object may be refused (C11 allows from_code to raise): inconclusive
                     self.count("perturbed_trip_raised_inconclusive")
                 elif arg.lineage in self.N0:
@@ -231,6 +233,9 @@ def run_c06(seed, tree, tier, known):
     s = w.execute(first, rng)
     if s is None:
         s = w.execute({"op": "compile", "prog": {"kind": "tmpl", "name": "fallback", "src": "def f(a, b=2):\n    c = a in {1, 'x'}\n    return [c for _ in b]\n"}}, rng)
+    if s.meta.get("w", 0) > 20000:
+        cfg["trips"] = min(cfg["trips"], 2)  # a 2^16-entry program: every step costs seconds
+        decoys = []
     n = s.meta.get("n_code_objects", 1)
     if n > 1 and rng.chance(0.35):
         s = w.execute({"op": "nested", "in": [s.id], "index": rng.randint(1, n - 1)}, rng) or s
